@@ -76,7 +76,8 @@ def strategy(tier):
             "hist2": st.lists(st.one_of(hist.map(lambda h: h[0])), max_size=3),
             "keys": st.lists(karg, min_size=1, max_size=4),
             "script": st.one_of(st.just([]), st.lists(step, min_size=1, max_size=3),
-                                st.lists(step, min_size=1, max_size=3)),
+                                st.lists(step, min_size=1, max_size=3), st.lists(step, min_size=1, max_size=3),
+                                st.lists(step, min_size=1, max_size=2)),
             "claim": st.tuples(st.integers(0, 2), st.binary(min_size=1, max_size=3)),
             "root": st.integers(0, 3),
         }
